@@ -12,7 +12,7 @@ pub const SPEC: FamilySpec = FamilySpec {
     profile: Profile::Progress,
     fams: &[Fam::Progress, Fam::Alive, Fam::Panic],
     stall_is_violation: true,
-    runs_quick: 16_000,
+    runs_quick: 48_000,
     runs_thorough: 3_200_000,
     rule: "one case = one execution of (a) an option-grid cell: (rwnd, threshold) in {1,2,3,4,5,8,16}x{1,2,3,4,8,64} chosen independently per side, buffer sizes 1/16, a burst of 4*max(rwnd) mixed-size writes \
 in each direction with readers that read everything; (b) an isolation scenario: one stream whose reader is absent or stops after one frame plus 1-3 healthy streams, late opens and datagrams on the same connection; \
